@@ -1,6 +1,302 @@
-import OnosVerif.Value.Model
+/-
+C17 — values survive the journey unchanged.
+
+Property theorems only (helper lemmas live in OnosVerif/Proofs/Value.lean).  The twin
+(OnosVerif/Value/{Enc,Model}.lean) mirrors GnmiTypedValueToNativeType / handleLeafList /
+NativeTypeToGnmiTypedValue (pkg/utils/v{2,3}/values), the onos-api typed-value encodings they call,
+the value part of PathValuesToGnmiChange and createUpdate, and the leaf rendering of
+handleLeafValue (pkg/utils/v{2,3}/tree); it is tied to the Go code by `harness/props/c17`.
+
+Quantifier: all string / int / uint (every width, extremes included) / bool / bytes / decimal64 /
+float values and homogeneous leaf-lists of them.  `scalarOK` is that domain for scalars (an
+`IntVal` is an int64, a `UintVal` a uint64, a decimal's precision fits the stored uint8 — a superset
+of YANG's 1..18 —, a float is not a NaN).  Where the code does not preserve a value the full
+statement is kept, the part that holds is `…_partial`, and the negation is proved on a witness.
+-/
+import OnosVerif.Proofs.Value
 
 namespace OnosVerif.Props.C17
 open OnosVerif.Value
+
+/-! ## Round trip: the value read back in PROTO encoding is the value set -/
+
+/-- Scalars other than floats: whatever the model's type options, a supported scalar converted
+    to the native form and back is the same value (an `AsciiVal` comes back as the `StringVal` of
+    the same text).  Covers every width, `-2^63`, `2^63-1`, `2^64-1`, the empty string and the
+    empty byte string, and every decimal64 with int64 digits. -/
+theorem C17_roundtrip_scalar (s : Scalar) (opts : List Nat) (h : scalarOK s = true)
+    (hnf : ∀ f, s ≠ .float f) :
+    roundTrip (.scalar s) opts = .ok (.scalar (norm s)) := by
+  cases s with
+  | str b => rfl
+  | ascii b => rfl
+  | int i =>
+    simp only [scalarOK] at h
+    simp only [roundTrip, toNative, toGnmi, newInt, wrapI64_of_isInt64 i h, norm]
+    have := tvInt_newInt i (widthOf opts) h
+    simp only [newInt] at this
+    rw [this]
+  | uint n =>
+    simp only [scalarOK] at h
+    have hn : n % two64 = n := Nat.mod_eq_of_lt (by simpa [isUint64] using h)
+    simp only [roundTrip, toNative, toGnmi, newUint, hn, norm]
+    have := tvUint_newUint n (widthOf opts) h
+    simp only [newUint] at this
+    rw [this]
+  | bool b =>
+    simp only [roundTrip, toNative, toGnmi, newBool, norm]
+    have := tvBool_newBool b
+    simp only [newBool] at this
+    rw [this]; rfl
+  | bytes b => rfl
+  | dec d p =>
+    simp only [scalarOK, Bool.and_eq_true, decide_eq_true_eq] at h
+    have hp : p % 256 = p := Nat.mod_eq_of_lt h.2
+    simp only [roundTrip, toNative, toGnmi, newDecimal, hp, norm]
+    have := tvDecimal_newDecimal d p h.1 h.2
+    simp only [newDecimal] at this
+    rw [this]
+  | decNil => simp [scalarOK] at h
+  | float f => exact absurd rfl (hnf f)
+  | anyNil => simp [scalarOK] at h
+  | other => simp [scalarOK] at h
+
+/-- A decimal whose precision does not fit a uint8 does not come back: `uint8(Precision)`
+    (digits 1234, precision 258 is read back with precision 2).  Outside YANG's 1..18; shown
+    because it is why `scalarOK` bounds the precision. -/
+theorem C17_roundtrip_decimal_precision_truncated :
+    roundTrip (.scalar (.dec 1234 258)) [] = .ok (.scalar (.dec 1234 2)) := by
+  decide +kernel
+
+/-! ### leaf-lists -/
+
+/-- int leaf-lists of any length ≥ 1 with any int64 members (width irrelevant) come back unchanged. -/
+theorem C17_roundtrip_leaflist_int (xs : List Int) (opts : List Nat) (hne : xs ≠ [])
+    (h : ∀ x ∈ xs, isInt64 x = true) :
+    roundTrip (.leaflist (xs.map .int)) opts = .ok (.leaflist (xs.map .int)) := by
+  simp only [roundTrip, toNative, handleLeafList_ints _ _ hne, toGnmi, newLLInt]
+  have := tvLLInt_newLLInt xs (llWidth (opts.headD 0 % 256)) h
+  simp only [newLLInt] at this
+  rw [this]; rfl
+
+/-- uint leaf-lists with uint64 members come back unchanged. -/
+theorem C17_roundtrip_leaflist_uint (xs : List Nat) (opts : List Nat) (hne : xs ≠ [])
+    (h : ∀ x ∈ xs, isUint64 x = true) :
+    roundTrip (.leaflist (xs.map .uint)) opts = .ok (.leaflist (xs.map .uint)) := by
+  simp only [roundTrip, toNative, handleLeafList_uints _ _ hne, toGnmi, newLLUint]
+  have := tvLLUint_newLLUint xs (llWidth (opts.headD 0 % 256)) h
+  simp only [newLLUint] at this
+  rw [this]; rfl
+
+/-- bool leaf-lists come back unchanged. -/
+theorem C17_roundtrip_leaflist_bool (xs : List Bool) (opts : List Nat) (hne : xs ≠ []) :
+    roundTrip (.leaflist (xs.map .bool)) opts = .ok (.leaflist (xs.map .bool)) := by
+  simp only [roundTrip, toNative, handleLeafList_bools _ _ hne, toGnmi, newLLBool]
+  have := tvLLBool_newLLBool xs
+  simp only [newLLBool] at this
+  rw [this]
+
+/-- decimal64 leaf-lists whose members share one precision (< 256) come back unchanged. -/
+theorem C17_roundtrip_leaflist_decimal (ds : List Int) (p : Nat) (opts : List Nat) (hne : ds ≠ [])
+    (h : ∀ d ∈ ds, isInt64 d = true) (hp : p < 256) :
+    roundTrip (.leaflist (ds.map fun d => .dec d p)) opts = .ok (.leaflist (ds.map fun d => .dec d p)) := by
+  have hp' : p % 256 = p := Nat.mod_eq_of_lt hp
+  simp only [roundTrip, toNative, handleLeafList_decs _ _ _ hne, hp', toGnmi, newLLDecimal]
+  have := tvLLDecimal_newLLDecimal ds p h hp
+  simp only [newLLDecimal] at this
+  rw [this]; rfl
+
+/-- string leaf-lists (members sent as `StringVal` or `AsciiVal`): the part that holds — no
+    member contains the byte 0x1D.  Empty members are preserved. -/
+theorem C17_roundtrip_leaflist_string_partial (xs : List (Bool × Bytes)) (opts : List Nat) (hne : xs ≠ [])
+    (h : no1D (xs.map (·.2)) = true) :
+    roundTrip (.leaflist (xs.map strScalar)) opts = .ok (.leaflist ((xs.map (·.2)).map .str)) := by
+  simp only [roundTrip, toNative, handleLeafList_strs _ _ hne, toGnmi, newLLString, tvLLString]
+  rw [splitGS_joinGS _ (by simpa using hne) h]
+
+/-- negation witness of the full string statement: `["a\x1db"]` is read back as `["a","b"]`
+    (known finding KF-C17-llstring-1d). -/
+theorem C17_roundtrip_leaflist_string_full_fails :
+    roundTrip (.leaflist [.str [97, 0x1D, 98]]) [] = .ok (.leaflist [.str [97], .str [98]]) := by
+  decide
+
+/-- bytes leaf-lists: the part that holds — no member is empty (and no member is 2 GiB long:
+    `int32(len(v))`). -/
+theorem C17_roundtrip_leaflist_bytes_partial (xs : List Bytes) (opts : List Nat) (hne : xs ≠ [])
+    (h : noEmptyMember xs = true) (hlen : ∀ v ∈ xs, v.length < 2147483648) :
+    roundTrip (.leaflist (xs.map .bytes)) opts = .ok (.leaflist (xs.map .bytes)) := by
+  simp only [roundTrip, toNative, handleLeafList_bytess _ _ hne, toGnmi]
+  rw [tvLLBytes_newLLBytes xs hne h hlen]; rfl
+
+/-- negation witness of the full bytes statement: `[[1],[]]` is read back as `[[1]]`
+    (known finding KF-C17-llbytes-empty-member). -/
+theorem C17_roundtrip_leaflist_bytes_full_fails :
+    roundTrip (.leaflist [.bytes [1], .bytes []]) [] = .ok (.leaflist [.bytes [1]]) := by
+  decide +kernel
+
+/-- … and the members after an empty one are merged: `[[1],[],[2],[3]]` comes back as
+    `[[1],[2,3]]`. -/
+theorem C17_roundtrip_leaflist_bytes_merge_witness :
+    roundTrip (.leaflist [.bytes [1], .bytes [], .bytes [2], .bytes [3]]) [] =
+      .ok (.leaflist [.bytes [1], .bytes [2, 3]]) := by
+  decide +kernel
+
+/-- a leading empty member, on the other hand, survives (`[[],[1]]`): the precondition
+    `noEmptyMember` is sufficient, not necessary. -/
+theorem C17_roundtrip_leaflist_bytes_leading_empty :
+    roundTrip (.leaflist [.bytes [], .bytes [1]]) [] = .ok (.leaflist [.bytes [], .bytes [1]]) := by
+  decide +kernel
+
+/-! ## Stored = sent = read -/
+
+/-- The value sent to the device and the value returned by Get (PROTO) are computed from the
+    stored bytes by the same function, so they are equal for every stored value, well-formed or
+    not. -/
+theorem C17_sent_eq_read (tv : TV) : sentToDevice tv = readProto tv := rfl
+
+/-- For every supported non-float scalar the three uses agree with what the client set. -/
+theorem C17_stored_eq_sent_eq_read (s : Scalar) (opts : List Nat) (h : scalarOK s = true)
+    (hnf : ∀ f, s ≠ .float f) :
+    ∃ tv, toNative (.scalar s) opts = .ok tv ∧
+      sentToDevice tv = .ok (.scalar (norm s)) ∧ readProto tv = .ok (.scalar (norm s)) := by
+  have hrt := C17_roundtrip_scalar s opts h hnf
+  simp only [roundTrip] at hrt
+  cases htn : toNative (.scalar s) opts with
+  | error e => rw [htn] at hrt; simp at hrt
+  | ok tv =>
+    rw [htn] at hrt
+    exact ⟨tv, rfl, hrt, hrt⟩
+
+/-! ## The stored encoding -/
+
+/-- An int is stored as the big-endian bytes of its magnitude (no leading zero byte is added:
+    `SetBytes` of the stored bytes is the magnitude), with the width the model gives — or 32 —
+    and the sign flag in `TypeOpts`. -/
+theorem C17_int_encoding (i : Int) (opts : List Nat) (h : isInt64 i = true) (hw : widthOK opts = true) :
+    ∃ tv, toNative (.scalar (.int i)) opts = .ok tv ∧ tv.type = .int ∧
+      natOfBE tv.bytes = i.natAbs ∧ tv.opts = [(modelWidth opts : Int), if i < 0 then 1 else 0] := by
+  refine ⟨_, rfl, rfl, ?_, ?_⟩
+  · simp only [newInt, wrapI64_of_isInt64 i h, natOfBE_natToBE]
+  · have hwd : wrapI32 (widthOf opts) = (modelWidth opts : Int) := by
+      cases opts with
+      | nil => simp only [widthOf, modelWidth, List.headD_nil]; exact wrapI32_of_range _ (by omega) (by omega)
+      | cons w r =>
+        simp only [widthOK, Bool.or_eq_true, decide_eq_true_eq] at hw
+        simp only [widthOf, modelWidth, List.headD_cons]
+        have h1 : wrapI64 (w : Int) = (w : Int) := by
+          apply wrapI64_of_isInt64; rw [isInt64_iff]; omega
+        rw [h1]; exact wrapI32_of_range _ (by omega) (by omega)
+    simp only [newInt, wrapI64_of_isInt64 i h, hwd, negFlag]
+
+/-! ## JSON: the right type and the right digits (RFC 7951 document) -/
+
+/-- An int is a JSON number for a model width ≤ 32 (or no width) and a JSON string holding its
+    `%d` text for width 64. -/
+theorem C17_json_int (i : Int) (opts : List Nat) (st : Bool) (h : isInt64 i = true) (hw : widthOK opts = true) :
+    jsonOf (.scalar (.int i)) opts st =
+      .ok (some (.scalar (if modelWidth opts > 32 then .str (asciiBytes (fmtInt i)) else .num i))) := by
+  obtain ⟨tv, htn, hty, _, hopts⟩ := C17_int_encoding i opts h hw
+  have hv : tvInt tv = i := by
+    have := tvInt_newInt i (widthOf opts) h
+    simp only [toNative, wrapI64_of_isInt64 i h] at htn
+    cases htn; exact this
+  simp only [jsonOf, htn, jsonLeaf, hty, hopts, hv]
+  by_cases hgt : modelWidth opts > 32
+  · have : ((modelWidth opts : Nat) : Int) > 32 := by omega
+    simp [hgt, this]
+  · have : ¬(((modelWidth opts : Nat) : Int) > 32) := by omega
+    simp [hgt, this]
+
+/-- A uint is a JSON number for a model width ≤ 32 and a JSON string of its digits for width 64. -/
+theorem C17_json_uint (n : Nat) (opts : List Nat) (st : Bool) (h : isUint64 n = true) (hw : widthOK opts = true) :
+    jsonOf (.scalar (.uint n)) opts st =
+      .ok (some (.scalar (if modelWidth opts > 32 then .str (asciiBytes (fmtNat n)) else .num n))) := by
+  have hn : n % two64 = n := Nat.mod_eq_of_lt (by simpa [isUint64] using h)
+  have hv := tvUint_newUint n (widthOf opts) h
+  have hwd : wrapI32 (widthOf opts) = (modelWidth opts : Int) := by
+    cases opts with
+    | nil => simp only [widthOf, modelWidth, List.headD_nil]; exact wrapI32_of_range _ (by omega) (by omega)
+    | cons w r =>
+      simp only [widthOK, Bool.or_eq_true, decide_eq_true_eq] at hw
+      simp only [widthOf, modelWidth, List.headD_cons]
+      have h1 : wrapI64 (w : Int) = (w : Int) := by
+        apply wrapI64_of_isInt64; rw [isInt64_iff]; omega
+      rw [h1]; exact wrapI32_of_range _ (by omega) (by omega)
+  simp only [jsonOf, toNative, hn, jsonLeaf]
+  simp only [newUint, tvUint, natOfBE_natToBE, bigUint64_of_uint64 n h] at hv ⊢
+  simp only [hwd, List.length_cons, List.length_nil, List.headD_cons]
+  by_cases hgt : modelWidth opts > 32
+  · have : ((modelWidth opts : Nat) : Int) > 32 := by omega
+    simp [hgt, this]
+  · have : ¬(((modelWidth opts : Nat) : Int) > 32) := by omega
+    simp [hgt, this]
+
+/-- The digits are exactly the value's: reading the `%d` text back gives the integer
+    (so the JSON number, and the JSON string for wide integers, denote the value set). -/
+theorem C17_json_digits_exact (i : Int) : readInt (fmtInt i) = some i := readInt_fmtInt i
+
+/-- … and the text of a JSON number token is that `%d` text. -/
+theorem C17_json_number_text (i : Int) : jsonText (.scalar (.num i)) = some (asciiBytes (fmtInt i)) := rfl
+
+/-- A bool is the JSON literal `true` / `false`. -/
+theorem C17_json_bool (b : Bool) (opts : List Nat) (st : Bool) :
+    jsonOf (.scalar (.bool b)) opts st = .ok (some (.scalar (.bool b))) := by
+  cases b <;> cases st <;> rfl
+
+/-- A string is a JSON string of the same bytes (escaped by `encoding/json`). -/
+theorem C17_json_string (s : Bytes) (opts : List Nat) (st : Bool) :
+    jsonOf (.scalar (.str s)) opts st = .ok (some (.scalar (.str s))) := rfl
+
+/-- Bytes, full statement minus the stored-empty case: a JSON string holding the standard
+    base64 text of the bytes, provided the value is not an empty byte string read back from a
+    store. -/
+theorem C17_json_bytes_partial (b : Bytes) (opts : List Nat) (st : Bool) (h : st = false ∨ b ≠ []) :
+    jsonOf (.scalar (.bytes b)) opts st = .ok (some (.scalar (.str (base64 b)))) := by
+  have : (st && b.isEmpty) = false := by
+    cases h with
+    | inl h => simp [h]
+    | inr h => cases b with
+      | nil => exact absurd rfl h
+      | cons _ _ => simp
+  simp only [jsonOf, toNative, newBytes, jsonLeaf, this]
+  simp
+
+/-- negation witness for stored empty bytes: rendered `null`, not `""`
+    (known finding KF-C17-empty-bytes-null). -/
+theorem C17_json_bytes_stored_empty_fails :
+    jsonOf (.scalar (.bytes [])) [] true = .ok (some (.scalar .null)) := by
+  decide
+
+/-- base64 is exact: the standard decoder gives the bytes back. -/
+theorem C17_json_base64_exact (b : Bytes) : unbase64 (base64 b) = some b := unbase64_base64 b
+
+/-- decimal64, the part that holds: for precision 0..18 and a value that is not a negative
+    fraction above -1, the JSON token is a string holding the decimal64 lexical form. -/
+theorem C17_json_decimal_partial (d : Int) (p : Nat) (opts : List Nat) (st : Bool)
+    (hd : isInt64 d = true) (hp : p ≤ 18) (hs : 0 ≤ d ∨ d ≤ -((10 ^ p : Nat) : Int)) :
+    jsonOf (.scalar (.dec d p)) opts st = .ok (some (.scalar (.str (asciiBytes (decimalText d p))))) := by
+  have hp' : p % 256 = p := Nat.mod_eq_of_lt (by omega)
+  have hv := tvDecimal_newDecimal d p hd (by omega)
+  simp only [jsonOf, toNative, hp', jsonLeaf]
+  simp only [newDecimal] at hv ⊢
+  simp only [hv, strDecimal64_eq_decimalText d p hd hp hs]
+  simp
+
+/-- the lexical form has exactly `p` fraction digits and its digits are those of `|d|`. -/
+theorem C17_json_decimal_digits (d : Int) (p : Nat) (hp : 0 < p) :
+    ∃ ip fp : List Char,
+      decimalText d p = (if d < 0 then ['-'] else []) ++ ip ++ '.' :: fp ∧
+      fp.length = p ∧ ip ≠ [] ∧ (ip ++ fp).all Char.isDigit = true ∧
+      Nat.ofDigitChars 10 (ip ++ fp) 0 = d.natAbs :=
+  decimalText_digits d p hp
+
+/-- negation witness of the full decimal statement: digits = -5, precision = 2 (the value
+    -0.05) is rendered `"0.05"` (known finding KF-C17-decimal-sign-lost). -/
+theorem C17_json_decimal_sign_fails :
+    jsonOf (.scalar (.dec (-5) 2)) [] false = .ok (some (.scalar (.str (asciiBytes "0.05".toList)))) ∧
+    decimalText (-5) 2 = "-0.05".toList := by
+  constructor
+  · decide +kernel
+  · decide
 
 end OnosVerif.Props.C17
